@@ -257,7 +257,7 @@ theorem gen_nrrd_header_matches_model :
   refine ⟨by decide, by decide, by decide, by decide⟩
 
 open Navis.Gen in
-/-- HDF5 (no Lean model, harness only): the NeuronList recursion forwards `serialized`/`raw`, annotation groups are
+/-- HDF5 (container level; the attribute guards are modelled in the second pass, `h5_units_written` ff.): the NeuronList recursion forwards `serialized`/`raw`, annotation groups are
 recognised as `h5py.Group`. -/
 theorem gen_h5_facts :
     IoConsts.h5ListForwards = ["raw", "serialized"] ∧ IoConsts.h5AnnotationGroupClass = "h5py.Group" := by
@@ -305,13 +305,13 @@ theorem selection_keeps_listing_order (hidden valid : String → Bool) (limit : 
     · exact List.filter_sublist
     · exact (List.take_sublist _ _).trans List.filter_sublist
     · exact ((List.drop_sublist _ _).trans (List.take_sublist _ _)).trans List.filter_sublist
-    · exact List.nil_sublist _
+    · exact List.filter_sublist.trans List.filter_sublist
     · exact List.filter_sublist.trans List.filter_sublist
   · cases limit <;> simp only [selectZipAW]
     · exact hs
     · exact hs
     · exact ((List.drop_sublist _ _).trans (List.take_sublist _ _)).trans hs
-    · exact List.nil_sublist _
+    · exact List.filter_sublist.trans hs
     · exact List.filter_sublist.trans hs
   · cases limit <;> simp only [selectTarAW]
     · exact hs
@@ -333,14 +333,14 @@ theorem selection_only_valid (hidden valid : String → Bool) (limit : Limit) (l
     · exact (List.mem_filter.1 hf).2
     · exact (List.mem_filter.1 (List.mem_of_mem_take hf)).2
     · exact (List.mem_filter.1 (List.mem_of_mem_take (List.mem_of_mem_drop hf))).2
-    · simp at hf
+    · exact (List.mem_filter.1 (List.mem_filter.1 hf).1).2
     · exact (List.mem_filter.1 (List.mem_filter.1 hf).1).2
   · intro hf
     cases limit <;> simp only [selectZipAW] at hf
     · exact hscan f hf
     · exact hscan f hf
     · exact hscan f (List.mem_of_mem_take (List.mem_of_mem_drop hf))
-    · simp at hf
+    · exact hscan f (List.mem_filter.1 hf).1
     · exact hscan f (List.mem_filter.1 hf).1
   · intro hf
     cases limit <;> simp only [selectTarAW] at hf
@@ -350,15 +350,17 @@ theorem selection_only_valid (hidden valid : String → Bool) (limit : Limit) (l
     · exact hscan f (List.mem_filter.1 hf).1
     · exact hscan f (List.mem_filter.1 hf).1
 
-/-- **One neuron per valid file.** Without `limit`, and for `slice` / substring limits, all three containers select
-exactly what the documentation promises (hidden files are never valid: for the extension filter by definition, for
-precomputed names because `._x` contains a dot); folders also for an integer limit. -/
+/-- **One neuron per valid file – every container, every kind of `limit`.** Folder, zip archive and tar archive select
+exactly what the documentation promises: the valid files, restricted by `limit` (none, the first `n`, a slice, a list of
+file names, a substring), in listing order. (Hidden files are never valid: for the extension filter by definition, for
+precomputed names because `._x` contains a dot.) Full statement; before the repairs of the integer and the
+list-of-names `limit` it held for folders without a name list, for zip archives without integer / name list and for
+tar archives without an integer limit only. -/
 theorem selection_meets_spec (hidden valid : String → Bool) (limit : Limit) (listing : List String)
     (hhid : ∀ f, hidden f = true → valid f = false) :
-    ((∀ l, limit ≠ .names l) → selectDirAW valid limit listing = selectSpec valid limit listing) ∧
-    ((∀ l, limit ≠ .names l) → (∀ n, limit ≠ .int n) →
-        selectZipAW hidden valid limit listing = selectSpec valid limit listing) ∧
-    ((∀ n, limit ≠ .int n) → selectTarAW hidden valid limit listing = selectSpec valid limit listing) := by
+    selectDirAW valid limit listing = selectSpec valid limit listing ∧
+    selectZipAW hidden valid limit listing = selectSpec valid limit listing ∧
+    selectTarAW hidden valid limit listing = selectSpec valid limit listing := by
   have hfil : (listing.filter fun f => !hidden f && valid f) = listing.filter valid := by
     apply List.filter_congr
     intro f _
@@ -366,41 +368,70 @@ theorem selection_meets_spec (hidden valid : String → Bool) (limit : Limit) (l
     · simp
     · simp [hhid f hh]
   refine ⟨?_, ?_, ?_⟩
-  · intro hn
-    cases limit <;> simp [selectDirAW, selectSpec]
-    exact absurd rfl (hn _)
-  · intro hn hi
-    cases limit <;> simp only [selectZipAW, selectSpec, intOf, scanAW_none, hfil]
-    · exact absurd rfl (hi _)
-    · exact absurd rfl (hn _)
-  · intro hi
-    cases limit <;> simp only [selectTarAW, selectSpec, intOf, scanAW_none, hfil]
-    exact absurd rfl (hi _)
+  · cases limit <;> rfl
+  · cases limit <;> simp only [selectZipAW, selectSpec, intOf, scanAW_none, scanAW_int, hfil, Nat.sub_zero]
+  · cases limit <;> simp only [selectTarAW, selectSpec, intOf, scanAW_none, scanAW_int, hfil, Nat.sub_zero]
 
-/-- **Integer `limit` on archives – the code that exists reads one file more** (`i >= limit` is tested after the
-append): with nothing hidden and every entry valid, `limit = n` selects the first `n + 1` entries, the
-documentation promises `n`. Full statement `selectZipAW … (.int n) … = selectSpec … (.int n) …` is *false* for the
-current source (open finding `parallel_read_archive/limit=int/one-more`). -/
-theorem archive_int_limit_partial (hidden valid : String → Bool) (n : Nat) (listing : List String)
-    (hall : ∀ f ∈ listing, hidden f = false ∧ valid f = true) :
-    selectZipAW hidden valid (.int n) listing = listing.take (n + 1) ∧
-    selectTarAW hidden valid (.int n) listing = listing.take (n + 1) ∧
-    selectSpec valid (.int n) listing = listing.take n := by
-  have h := scanAW_int_all_valid hidden valid n 0 listing (Nat.zero_le _) hall
-  have hf : listing.filter valid = listing := List.filter_eq_self.2 fun f hf => (hall f hf).2
-  simp [selectZipAW, selectTarAW, selectSpec, intOf, h, hf]
+/-- **Integer `limit` on archives = integer `limit` on folders** (was `archive_int_limit_partial`: the un-repaired scan
+tested `i >= limit` on the entry index after the append and read `n + 1` files): `limit = n` selects the first `n`
+valid entries of the archive, whatever hidden, foreign, `info` or manifest entries sit in between – the same files a
+folder read of the same listing selects. -/
+theorem archive_int_limit (hidden valid : String → Bool) (n : Nat) (listing : List String)
+    (hhid : ∀ f, hidden f = true → valid f = false) :
+    selectZipAW hidden valid (.int n) listing = (listing.filter valid).take n ∧
+    selectTarAW hidden valid (.int n) listing = (listing.filter valid).take n ∧
+    selectDirAW valid (.int n) listing = (listing.filter valid).take n := by
+  have h := selection_meets_spec hidden valid (.int n) listing hhid
+  exact ⟨h.2.1, h.2.2, h.1⟩
 
-example : selectZipAW (fun _ => false) (fun _ => true) (.int 2) ["10", "11", "12", "13"] = ["10", "11", "12"] := by decide
+/-- `limit = 0` reads nothing, `limit ≥` number of valid files reads them all. -/
+theorem archive_int_limit_bounds (hidden valid : String → Bool) (n : Nat) (listing : List String)
+    (hhid : ∀ f, hidden f = true → valid f = false) :
+    selectZipAW hidden valid (.int 0) listing = [] ∧
+    ((listing.filter valid).length ≤ n → selectZipAW hidden valid (.int n) listing = listing.filter valid) ∧
+    (selectZipAW hidden valid (.int n) listing).length = min n (listing.filter valid).length := by
+  refine ⟨?_, ?_, ?_⟩
+  · rw [(archive_int_limit hidden valid 0 listing hhid).1]; simp
+  · intro hle; rw [(archive_int_limit hidden valid n listing hhid).1]; exact List.take_of_length_le hle
+  · rw [(archive_int_limit hidden valid n listing hhid).1]; simp
+
+example : selectZipAW (fun _ => false) (fun _ => true) (.int 2) ["10", "11", "12", "13"] = ["10", "11"] := by decide
+/-- decoys before the data files neither count nor stop the scan (the un-repaired scan returned `["10"]` here) -/
+example : selectTarAW (fun f => f == "._10") (fun f => f != "info" && f != "._10") (.int 2) ["info", "._10", "10", "11", "12"]
+    = ["10", "11"] := by decide
+/-- a list of file names selects those files in every container (the un-repaired folder / zip reads returned `[]`) -/
+example : selectDirAW (fun _ => true) (.names ["13", "11"]) ["10", "11", "12", "13"] = ["11", "13"] ∧
+    selectZipAW (fun _ => false) (fun _ => true) (.names ["13", "11"]) ["10", "11", "12", "13"] = ["11", "13"] := by decide
+
+/-- The source facts the selection model rests on, regenerated from `navis/io/base.py` / `precomputed_io.py`: both archive
+scans test `len(to_read) >= limit` as the *first* statement of the loop body (nothing else breaks the loop), the folder
+read slices `files[:limit]`, a list of names is matched against the entry's *name* (`Path.name`, `ZipInfo.filename`, the
+tar path string), and `PrecomputedReader.is_valid_file` unwraps `ZipInfo`, `TarInfo` and `Path` entries to their names
+before applying the literal tests of `precomputed_filter_literals`. -/
+theorem gen_selection_facts :
+    IoReaders.archiveIntLimit = IoBatch.Src.archiveIntLimit ∧ IoReaders.dirIntLimit = IoBatch.Src.dirIntLimit ∧
+    IoReaders.archiveCollects = IoBatch.Src.archiveCollects ∧ IoReaders.namesLimitTest = IoBatch.Src.namesLimitTest ∧
+    IoReaders.preValidUnwraps = IoBatch.Src.preValidUnwraps := by
+  refine ⟨by decide, by decide, by decide, by decide, by decide⟩
 
 /-- Folder / archive read under `errors ≠ 'raise'`: exactly one result per selected file that parses, in listing
-order; a corrupt file removes only itself (combines the selection with `policy_isolation`). -/
+order; a corrupt file removes only itself (combines the selection with `policy_isolation` and `containers_agree`) – for
+every container and every kind of `limit`. -/
 theorem batch_read_one_per_valid_file {α} (e : Errors) (he : e ≠ .raise) (read : String → Option α)
-    (valid : String → Bool) (limit : Limit) (listing : List String) (hl : ∀ l, limit ≠ .names l) :
-    readBatch e read (selectDirAW valid limit listing) = some ((selectSpec valid limit listing).filterMap read) := by
-  rw [policy_isolation e he, (selection_meets_spec (fun _ => false) valid limit listing (by simp)).1 hl]
+    (hidden valid : String → Bool) (limit : Limit) (listing : List String)
+    (hhid : ∀ f, hidden f = true → valid f = false) :
+    readBatch e read (selectDirAW valid limit listing) = some ((selectSpec valid limit listing).filterMap read) ∧
+    readZip e read (selectZipAW hidden valid limit listing) = some ((selectSpec valid limit listing).filterMap read) ∧
+    readZip e read (selectTarAW hidden valid limit listing) = some ((selectSpec valid limit listing).filterMap read) := by
+  obtain ⟨h1, h2, h3⟩ := selection_meets_spec hidden valid limit listing hhid
+  refine ⟨?_, ?_, ?_⟩
+  · rw [policy_isolation e he, h1]
+  · rw [(containers_agree e read _ [selectZipAW hidden valid limit listing] (by simp)).1, policy_isolation e he, h2]
+  · rw [(containers_agree e read _ [selectTarAW hidden valid limit listing] (by simp)).1, policy_isolation e he, h3]
 
 /-- The precomputed file filter with the literals of the current source: the files `write_precomputed` produces for
-ids without a dot are data files; `info`, manifests (`<id>:0`), hidden files and anything with an extension are not. -/
+ids without a dot are data files; `info`, manifests (`<id>:0`), hidden files and anything with an extension are not
+(in folders, zip *and* tar archives: `gen_selection_facts` – every entry object is unwrapped to its name first). -/
 theorem precomputed_filter_literals :
     IoReaders.preRejectContains = ["."] ∧ IoReaders.preRejectEquals = ["info"] ∧
     IoReaders.preRejectEndsWith = [":0"] ∧ IoReaders.hiddenPrefix = ["._"] ∧
@@ -534,6 +565,70 @@ theorem json_tables_and_id_travel {α} (id : α) (d : List (String × α)) :
     have h2 : (!(IoMeta.startsWith k "_") || IoReaders.jsonKeepPrivate.contains k) = true := by
       rw [hpub]; simp
     rw [if_pos h1, if_pos h2]
+
+/-- **`write_json` accepts skeletons only – also inside a `NeuronList`** (with the member test of the current source):
+the call is accepted iff every neuron handed over is a `TreeNeuron`, whether it comes alone or in a list. So the
+geometry of a `MeshNeuron` / `Dotprops` is never 'written' as an object without vertices, faces or points (before the
+repair a list was let through whatever it held); what *is* accepted is covered by `json_tables_and_id_travel`. -/
+theorem json_accepts_only_skeletons (isList : Bool) (kinds : List String) :
+    jsonAccepts IoReaders.jsonMembersChecked isList kinds = true ↔ ∀ k ∈ kinds, k = "TreeNeuron" := by
+  simp only [IoReaders.jsonMembersChecked, jsonAccepts, Bool.not_true, Bool.false_or, Bool.and_eq_true, Bool.or_eq_true,
+    List.all_eq_true, beq_iff_eq]
+  constructor
+  · exact fun h => h.2
+  · exact fun h => ⟨Or.inr h, h⟩
+
+example : jsonAccepts IoReaders.jsonMembersChecked true ["TreeNeuron", "MeshNeuron"] = false := by decide
+/-- the check the repair added is what rejects it: without the member test the list is accepted -/
+example : jsonAccepts false true ["MeshNeuron"] = true := by decide
+
+/-! ### HDF5 raw representation: units (also per-axis), soma, name -/
+
+/-- **`units_nm` is written for every neuron with physical units – isotropic or per-axis – by all three raw writers**
+(guards regenerated from `H5WriterV1.write_treeneuron / write_dotprops / write_meshneuron`): the write never raises and
+the attribute is exactly what `neuron_nm_units` returned; a dimensionless neuron gets no attribute. (Before the repair
+the guard was `if units:`, whose truth value raises for the per-axis triple.) -/
+theorem h5_units_written (m : Option Mag) :
+    IoReaders.h5UnitsGuards.map (·.1) = ["write_treeneuron", "write_dotprops", "write_meshneuron"] ∧
+    ∀ w ∈ IoReaders.h5UnitsGuards, h5UnitsAttr w.2 m = some m := by
+  refine ⟨by decide, ?_⟩
+  intro w hw
+  simp only [IoReaders.h5UnitsGuards, List.mem_cons, List.not_mem_nil, or_false] at hw
+  rcases hw with rfl | rfl | rfl <;> cases m <;> simp [h5UnitsAttr, unitsGuard]
+
+/-- **HDF5 restores units per axis**: for every nm magnitude (one number or an x/y/z triple) and each raw writer, what
+`H5ReaderV1.parse_add_units` (array branch regenerated from the source) makes of the attribute the writer left is the
+neuron's `units_xyz` – on all three axes. (Before the repairs the triple could not be written, and a triple found in a
+file was read back as its first entry on all axes.) -/
+theorem h5_units_round_trip (m : Mag) :
+    ∀ w ∈ IoReaders.h5UnitsGuards,
+      (h5UnitsAttr w.2 (some m)).bind (h5ReadUnits IoReaders.h5ReaderArrayUnits) = some (some m.xyz) := by
+  intro w hw
+  rw [(h5_units_written (some m)).2 w hw]
+  cases m <;> simp [h5ReadUnits, IoReaders.h5ReaderArrayUnits, Mag.xyz]
+
+example : (h5UnitsAttr "units is not None" (some (.triple (4, 4, 40)))).bind (h5ReadUnits IoReaders.h5ReaderArrayUnits)
+    = some (some (4, 4, 40)) := by decide
+/-- historical: the two un-repaired pieces of code, on the same input -/
+example : h5UnitsAttr "units" (some (.triple (4, 4, 40))) = none ∧
+    h5ReadUnits "f'{units[0]} nm'" (some (.triple (4, 4, 40))) = some (some (4, 4, 4)) := by decide
+
+/-- **The soma of a skeleton is written whatever its node id – also id 0** (guard regenerated from
+`write_treeneuron`; `has_soma`, which the un-repaired writer tested, is false for the id 0). -/
+theorem h5_soma_written (soma : Option Int) :
+    ∃ g, IoReaders.h5SomaGuards.lookup "write_treeneuron" = some g ∧ h5SomaAttr g soma = some soma := by
+  refine ⟨"soma is not None", by decide, ?_⟩
+  cases soma <;> simp [h5SomaAttr, somaGuard]
+
+example : h5SomaAttr "soma is not None" (some 0) = some (some 0) := by decide
+example : h5SomaAttr "neuron.has_soma" (some 0) = some none := by decide      -- historical: soma 0 was dropped
+
+/-- **A neuron without a name can be written**: with the guard of the current `get_neuron_group` the `neuron_name`
+attribute is the name when there is one and absent otherwise – the write never raises (storing `None` does). -/
+theorem h5_name_written (name : Option String) : h5NameAttr IoReaders.h5NameGuard name = some name := by
+  simp [h5NameAttr, IoReaders.h5NameGuard]
+
+example : h5NameAttr "hasattr(neuron, 'name')" none = none := by decide       -- historical: name None raised
 
 end Ext
 
